@@ -27,6 +27,9 @@ pub struct Resp {
     /// exact bytes of this response on the wire
     pub raw: Vec<u8>,
     pub head_len: usize,
+    /// interim (1xx, not 101) responses that came in front of this one: skipped — a server may send `100 Continue` — but
+    /// counted, and part of `masked()`: whether it sends one must not depend on how the request was cut
+    pub interim: u32,
 }
 impl Resp {
     pub fn header(&self, name: &str) -> Option<&str> {
@@ -53,7 +56,8 @@ impl Resp {
             })
             .collect();
         hs.sort();
-        format!("{} | {} | {:?} | {}", self.status, hs.join(" ; "), self.framing_kind(), hex(&self.body))
+        let interim = if self.interim > 0 { format!("interim={} | ", self.interim) } else { String::new() };
+        format!("{interim}{} | {} | {:?} | {}", self.status, hs.join(" ; "), self.framing_kind(), hex(&self.body))
     }
     pub fn framing_kind(&self) -> &'static str {
         match self.framing {
@@ -178,7 +182,7 @@ pub fn parse_response(buf: &[u8], head_req: bool, eof: bool) -> Parse {
     let cl = get("content-length");
     let mk = |framing: Framing, body: Vec<u8>, total: usize| {
         Parse::Done(
-            Resp { status, reason: reason.clone(), headers: headers.clone(), body, framing, raw: buf[..total].to_vec(), head_len: body_start },
+            Resp { status, reason: reason.clone(), headers: headers.clone(), body, framing, raw: buf[..total].to_vec(), head_len: body_start, interim: 0 },
             total,
         )
     };
@@ -347,10 +351,16 @@ impl Client {
 
     /// like recv, reading at most `max` bytes at a time and pausing `pause` between reads (slow reader)
     pub async fn recv_paced(&mut self, head_req: bool, timeout: Ns, max: usize, pause: Ns) -> Result<Resp, RecvErr> {
+        let mut interim = 0u32;
         loop {
             match parse_response(&self.buf, head_req, self.eof) {
-                Parse::Done(r, used) => {
+                Parse::Done(mut r, used) => {
                     self.buf.drain(..used);
+                    if (100..200).contains(&r.status) && r.status != 101 && interim < 8 {
+                        interim += 1;
+                        continue;
+                    }
+                    r.interim = interim;
                     return Ok(r);
                 }
                 Parse::Bad(m) => return Err(RecvErr::Malformed(m, self.buf.clone())),
